@@ -40,6 +40,11 @@ type ContentionOpts struct {
 	// devices, the workload started a minute ago, and its queue and all ancestors carry a 1h reclaim and preempt
 	// min-runtime - several reclaimers / preemptors of ONE cycle then compete for the surplus of a protected workload
 	ElasticFocus bool
+	// LateReclaimers (with MinRuntime): one device is free, the organisation above its quota has pending work and all
+	// its queues (and their ancestors) carry reclaim and preempt min-runtimes; the pending jobs of the other
+	// organisations are submitted before cycle 2 or 3 only. So work of the over-quota organisation STARTS in cycle 1 and
+	// the reclaimers that arrive next meet a workload that has just started
+	LateReclaimers bool
 }
 
 func ContentionWith(seed int64, index int, tier string, opts ContentionOpts) *spec.Case {
@@ -277,6 +282,9 @@ func ContentionWith(seed int64, index int, tier string, opts ContentionOpts) *sp
 	if blockedHead {
 		left = G
 	}
+	if opts.LateReclaimers {
+		left = G - 1
+	}
 	for o := 0; o < nOrg; o++ {
 		if o != over {
 			run[o] = quotas[o] - pk(0, 1, 1, 2)
@@ -353,6 +361,9 @@ func ContentionWith(seed int64, index int, tier string, opts ContentionOpts) *sp
 		n := pk(1, 2, 2, 3)
 		if o == over {
 			n = pk(0, 0, 1)
+			if opts.LateReclaimers && n == 0 {
+				n = 1
+			}
 		}
 		bigFirst := r.IntN(2) == 0
 		if blockedHead && o != over {
@@ -388,7 +399,49 @@ func ContentionWith(seed int64, index int, tier string, opts ContentionOpts) *sp
 		c.World.MaxTerminateCycles = pk(1, 2)
 		c.Cycles = 6
 	}
-	if opts.MinRuntime && opts.EarlyRecreate {
+	if opts.LateReclaimers {
+		overQ := map[string]bool{}
+		for _, l := range leavesOf(over) {
+			for qn := l.name; qn != ""; {
+				next := ""
+				for _, qu := range c.Objects.Queues {
+					if qu.Name == qn {
+						qu.Spec.ReclaimMinRuntime = &metav1.Duration{Duration: time.Hour}
+						qu.Spec.PreemptMinRuntime = &metav1.Duration{Duration: time.Hour}
+						next = qu.Spec.ParentQueue
+					}
+				}
+				qn = next
+			}
+			overQ[l.name] = true
+		}
+		pendingOnly := map[string]bool{}
+		for _, pod := range c.Objects.Pods {
+			if g := pod.Annotations["pod-group-name"]; g != "" {
+				if _, seen := pendingOnly[g]; !seen {
+					pendingOnly[g] = true
+				}
+				if pod.Spec.NodeName != "" {
+					pendingOnly[g] = false
+				}
+			}
+		}
+		rl := NewRand(seed, index, 24)
+		for _, pg := range c.Objects.PodGroups {
+			if overQ[pg.Spec.Queue] || !pendingOnly[pg.Name] {
+				continue
+			}
+			k := 2 + rl.IntN(2)
+			pg.Annotations[spec.ArriveAnno] = strconv.Itoa(k)
+			created := metav1.NewTime(now.Add(time.Duration(k) * time.Second))
+			pg.CreationTimestamp = created
+			for _, pod := range c.Objects.Pods {
+				if pod.Annotations["pod-group-name"] == pg.Name {
+					pod.CreationTimestamp = created
+				}
+			}
+		}
+	} else if opts.MinRuntime && opts.EarlyRecreate {
 		// open system: a third of the pending jobs are submitted later (own stream: the other draws stay what they were).
 		// Work that started in an earlier cycle of the case is then what a late reclaimer meets
 		MarkArrivals(c, NewRand(seed, index, 22), 0.3)
